@@ -502,6 +502,9 @@ namespace probe {
       void stat()
       {
          if (lex == nullptr) { out << "stat !none\n"; return; }
+#ifdef PROBE_BLACKBOX
+         out << "stat blackbox\n";            // fallback build: the private members named below no longer exist
+#else
          long tn = 0, tc = 0;
          auto& l = *lex;
          tally(l.logos, tn, tc); tally(l.ids, tn, tc); tally(l.suffixes, tn, tc); tally(l.convs, tn, tc);
@@ -528,6 +531,7 @@ namespace probe {
          else if (np == 0)
             out << '-';
          out << " rem=" << arena.remaining_header_count() << '\n';
+#endif
       }
 
       void create()
